@@ -604,7 +604,7 @@ pub proof fn lemma_default_wf(r: ParentReadyTracker, g: ParentReadyState)
         spec_map(r.states) == Map::<Slot, ParentReadyState>::empty().insert(Slot(0), g)
             && !g.skip && g.nf() == Seq::<BlockHash>::empty().push(spec_genesis_hash()) && g.ready().len() == 0 && g.is_ready == IsReady::NotReady(None),
     ensures
-        r.wf(),
+        r.wf(), r.cpl(),
         forall|b: BlockId| #[trigger] r.nf_has(b) <==> b == (Slot(0), spec_genesis_hash()),
         forall|t: Slot| !(#[trigger] r.st(t)).skip && r.st(t).ready().len() == 0,
 {
@@ -621,6 +621,334 @@ pub proof fn lemma_default_wf(r: ParentReadyTracker, g: ParentReadyState)
         } else { assert(r.st(b.0).nf().len() == 0); }
     }
     assert forall|s: Slot| (#[trigger] r.st(s)).nf().no_duplicates() by { if s != Slot(0) {} }
+    assert forall|b0: BlockId, s: Slot| #[trigger] r.j4_pre(b0, s) implies r.st(s).ready().contains(b0) by {
+        // the only mark is genesis (slot 0); a window start above it is at least one slot away and nothing is skipped
+        if r.j4_pre(b0, s) {
+            if b0.0.0 + 1 < s.0 { assert(r.st(Slot((b0.0.0 + 1) as u64)).skip); }
+            assert(b0.0.0 + 1 == s.0);
+            assert(b0.0 == Slot(0)) by { if b0.0 != Slot(0) { assert(r.st(b0.0).nf().len() == 0); } }
+            assert(s.0 % SLOTS_PER_WINDOW == 0 && s.0 == 1);
+            assert(SLOTS_PER_WINDOW > 1);
+        }
+    }
+    assert forall|f: Slot, s: Slot, x: BlockId| #![trigger r.j5_pre(f, s), r.st(f).ready().contains(x)]
+            r.j5_pre(f, s) && r.st(f).ready().contains(x) implies r.st(s).ready().contains(x) by {
+        assert(r.st(f).ready().len() == 0);
+    }
+}
+
+// ---------------------------------------------------------------- completeness ("exactly when", the <== direction)
+impl ParentReadyTracker {
+    pub open spec fn all_skip(&self, lo: int, hi: int) -> bool { forall|t: Slot| lo <= t.0 < hi ==> (#[trigger] self.st(t)).skip }
+    // b is certified and skip-connected to the window start s (both still tracked)
+    pub open spec fn j4_pre(&self, b: BlockId, s: Slot) -> bool {
+        win_start(s) && s.0 >= self.root.0 && b.0.0 >= self.root.0 && b.0.0 < s.0 && self.nf_has(b) && self.all_skip(b.0.0 + 1, s.0 as int)
+    }
+    // window start f is skip-connected to the later window start s
+    pub open spec fn j5_pre(&self, f: Slot, s: Slot) -> bool {
+        win_start(f) && win_start(s) && self.root.0 <= f.0 < s.0 && self.all_skip(f.0 as int, s.0 as int)
+    }
+    // J4: every certified, skip-connected parent is recorded; J5: whatever is ready for a window start is ready for every
+    // later window start reached through skipped slots only (this carries parents from below the pruning root)
+    pub open spec fn cpl(&self) -> bool {
+        &&& forall|b: BlockId, s: Slot| #[trigger] self.j4_pre(b, s) ==> self.st(s).ready().contains(b)
+        &&& forall|f: Slot, s: Slot, x: BlockId| #![trigger self.j5_pre(f, s), self.st(f).ready().contains(x)]
+                self.j5_pre(f, s) && self.st(f).ready().contains(x) ==> self.st(s).ready().contains(x)
+    }
+}
+// completeness survives a step that changes no mark and no recorded pair
+pub proof fn lemma_cpl_step(a: ParentReadyTracker, b: ParentReadyTracker)
+    requires
+        a.cpl(), b.root == a.root,
+        forall|t: Slot| (#[trigger] b.st(t)).skip == a.st(t).skip,
+        forall|t: Slot| (#[trigger] b.st(t)).nf() == a.st(t).nf(),
+        forall|t: Slot, x: BlockId| #[trigger] b.st(t).ready().contains(x) <==> a.st(t).ready().contains(x),
+    ensures b.cpl(),
+{
+    assert forall|b0: BlockId, s: Slot| #[trigger] b.j4_pre(b0, s) implies b.st(s).ready().contains(b0) by {
+        assert(b.st(b0.0).nf() == a.st(b0.0).nf());
+        assert(a.all_skip(b0.0.0 + 1, s.0 as int)) by {
+            assert forall|t: Slot| b0.0.0 + 1 <= t.0 < s.0 implies (#[trigger] a.st(t)).skip by { assert(b.st(t).skip); }
+        }
+        assert(a.j4_pre(b0, s));
+    }
+    assert forall|f: Slot, s: Slot, x: BlockId| #![trigger b.j5_pre(f, s), b.st(f).ready().contains(x)]
+            b.j5_pre(f, s) && b.st(f).ready().contains(x) implies b.st(s).ready().contains(x) by {
+        assert(a.all_skip(f.0 as int, s.0 as int)) by {
+            assert forall|t: Slot| f.0 <= t.0 < s.0 implies (#[trigger] a.st(t)).skip by { assert(b.st(t).skip); }
+        }
+        assert(a.j5_pre(f, s));
+        assert(a.st(f).ready().contains(x));
+    }
+}
+
+pub proof fn lemma_cpl_prune(a: ParentReadyTracker, b: ParentReadyTracker)
+    requires
+        a.cpl(), b.root.0 >= a.root.0,
+        forall|t: Slot| t.0 >= b.root.0 ==> #[trigger] b.st(t) == a.st(t),
+    ensures b.cpl(),
+{
+    assert forall|b0: BlockId, s: Slot| #[trigger] b.j4_pre(b0, s) implies b.st(s).ready().contains(b0) by {
+        assert(b.st(b0.0) == a.st(b0.0));
+        assert(a.all_skip(b0.0.0 + 1, s.0 as int)) by {
+            assert forall|t: Slot| b0.0.0 + 1 <= t.0 < s.0 implies (#[trigger] a.st(t)).skip by { assert(b.st(t).skip); }
+        }
+        assert(a.j4_pre(b0, s));
+        assert(b.st(s) == a.st(s));
+    }
+    assert forall|f: Slot, s: Slot, x: BlockId| #![trigger b.j5_pre(f, s), b.st(f).ready().contains(x)]
+            b.j5_pre(f, s) && b.st(f).ready().contains(x) implies b.st(s).ready().contains(x) by {
+        assert(a.all_skip(f.0 as int, s.0 as int)) by {
+            assert forall|t: Slot| f.0 <= t.0 < s.0 implies (#[trigger] a.st(t)).skip by { assert(b.st(t).skip); }
+        }
+        assert(a.j5_pre(f, s));
+        assert(b.st(f) == a.st(f) && b.st(s) == a.st(s));
+    }
+}
+
+pub proof fn lemma_cpl_extend(a: ParentReadyTracker, b: ParentReadyTracker, id: BlockId, last: Slot)
+    requires
+        a.wf(), a.cpl(), b.root == a.root, id.0.0 >= a.root.0,
+        !a.nf_has(id), b.nf_has(id),
+        forall|t: Slot| (#[trigger] b.st(t)).skip == a.st(t).skip,
+        forall|t: Slot| (#[trigger] b.st(t)).nf() == (if t == id.0 { a.st(t).nf().push(id.1) } else { a.st(t).nf() }),
+        forall|t: Slot| id.0.0 < t.0 < last.0 ==> (#[trigger] a.st(t)).skip,
+        forall|t: Slot| (#[trigger] b.st(t)).ready() ==
+            (if id.0.0 < t.0 <= last.0 && win_start(t) { a.st(t).ready().push(id) } else { a.st(t).ready() }),
+        last.0 > id.0.0 && !a.st(last).skip,
+    ensures
+        b.cpl(),
+{
+    assert forall|t: Slot, x: BlockId| a.st(t).ready().contains(x) implies #[trigger] b.st(t).ready().contains(x) by {
+        let q = a.st(t).ready();
+        let i = choose|i: int| 0 <= i < q.len() && q[i] == x;
+        assert(q.push(id)[i] == x);
+    }
+    // a window start reached from id through skipped slots only lies at or before `last`, so id was appended there
+    assert forall|s: Slot| win_start(s) && s.0 > id.0.0 && b.all_skip(id.0.0 + 1, s.0 as int) implies (#[trigger] b.st(s)).ready().contains(id) by {
+        if s.0 > last.0 { assert(b.st(last).skip); }
+        let q = a.st(s).ready();
+        assert(q.push(id)[q.len() as int] == id);
+    }
+    assert forall|b0: BlockId, s: Slot| #[trigger] b.j4_pre(b0, s) implies b.st(s).ready().contains(b0) by {
+        if b0 == id {
+        } else {
+            let q = a.st(b0.0).nf();
+            if b0.0 == id.0 {
+                let i = choose|i: int| 0 <= i < q.push(id.1).len() && q.push(id.1)[i] == b0.1;
+                assert(i < q.len());
+                assert(q[i] == b0.1);
+            }
+            assert(a.nf_has(b0));
+            assert(a.all_skip(b0.0.0 + 1, s.0 as int)) by {
+                assert forall|t: Slot| b0.0.0 + 1 <= t.0 < s.0 implies (#[trigger] a.st(t)).skip by { assert(b.st(t).skip); }
+            }
+            assert(a.j4_pre(b0, s));
+        }
+    }
+    assert forall|f: Slot, s: Slot, x: BlockId| #![trigger b.j5_pre(f, s), b.st(f).ready().contains(x)]
+            b.j5_pre(f, s) && b.st(f).ready().contains(x) implies b.st(s).ready().contains(x) by {
+        assert(a.all_skip(f.0 as int, s.0 as int)) by {
+            assert forall|t: Slot| f.0 <= t.0 < s.0 implies (#[trigger] a.st(t)).skip by { assert(b.st(t).skip); }
+        }
+        assert(a.j5_pre(f, s));
+        if a.st(f).ready().contains(x) {
+            assert(a.st(s).ready().contains(x));
+        } else {
+            // x is the newly appended id at f
+            let q = a.st(f).ready();
+            let i = choose|i: int| 0 <= i < b.st(f).ready().len() && b.st(f).ready()[i] == x;
+            assert(id.0.0 < f.0 <= last.0 && win_start(f));
+            if i < q.len() { assert(q.push(id)[i] == q[i]); assert(q.contains(q[i])); }
+            assert(x == id);
+            assert(b.all_skip(id.0.0 + 1, s.0 as int)) by {
+                assert forall|t: Slot| id.0.0 + 1 <= t.0 < s.0 implies (#[trigger] b.st(t)).skip by {
+                    if t.0 < f.0 { assert(a.st(t).skip); } else { assert(a.st(t).skip); }
+                }
+            }
+        }
+    }
+}
+
+impl ParentReadyTracker {
+    // completeness of the backward scan so far (slots >= kx visited): every mark of a visited slot below `marked`, and
+    // every parent recorded for a visited slot from which everything up to `marked` is skipped, has been collected
+    pub open spec fn scan_c1(&self, marked: Slot, kx: int, pp: Seq<BlockId>) -> bool {
+        forall|k: Slot, h: BlockHash| kx <= k.0 < marked.0 && k.0 >= self.root.0 && #[trigger] self.st(k).nf().contains(h) ==> pp.contains((k, h))
+    }
+    pub open spec fn scan_c2(&self, marked: Slot, kx: int, pp: Seq<BlockId>) -> bool {
+        forall|k: Slot, x: BlockId| kx <= k.0 <= marked.0 && k.0 >= self.root.0 && self.all_skip(k.0 as int, marked.0 + 1)
+            && #[trigger] self.st(k).ready().contains(x) ==> pp.contains(x)
+    }
+}
+pub proof fn lemma_scan_cpl(mid: ParentReadyTracker, marked: Slot, slot: Slot, pp0: Seq<BlockId>, pp1: Seq<BlockId>, pp: Seq<BlockId>, extended: bool)
+    requires
+        mid.scan_c1(marked, slot.0 + 1, pp0), mid.scan_c2(marked, slot.0 + 1, pp0),
+        slot.0 <= marked.0,
+        slot != marked ==> pp1 == pp0 + Seq::new(mid.st(slot).nf().len(), |x: int| (slot, mid.st(slot).nf()[x])),
+        slot == marked ==> pp1 == pp0,
+        extended ==> pp == pp1 + mid.st(slot).ready(),
+        !extended ==> pp == pp1 && !mid.st(slot).skip,
+    ensures
+        mid.scan_c1(marked, slot.0 as int, pp), mid.scan_c2(marked, slot.0 as int, pp),
+{
+    assert forall|x: BlockId| pp0.contains(x) implies pp.contains(x) by {
+        let i = choose|i: int| 0 <= i < pp0.len() && pp0[i] == x;
+        assert(pp1[i] == x);
+        assert(pp[i] == x);
+    }
+    assert forall|k: Slot, h: BlockHash| slot.0 <= k.0 < marked.0 && k.0 >= mid.root.0 && #[trigger] mid.st(k).nf().contains(h) implies pp.contains((k, h)) by {
+        if k.0 == slot.0 {
+            assert(k == slot);
+            let nf = mid.st(slot).nf();
+            let i = choose|i: int| 0 <= i < nf.len() && nf[i] == h;
+            assert(pp1[pp0.len() + i] == (slot, nf[i]));
+            assert(pp[pp0.len() + i] == (k, h));
+        } else {
+            assert(pp0.contains((k, h)));
+        }
+    }
+    assert forall|k: Slot, x: BlockId| slot.0 <= k.0 <= marked.0 && k.0 >= mid.root.0 && mid.all_skip(k.0 as int, marked.0 + 1)
+            && #[trigger] mid.st(k).ready().contains(x) implies pp.contains(x) by {
+        if k.0 == slot.0 {
+            assert(k == slot);
+            assert(mid.st(slot).skip);
+            let rd = mid.st(slot).ready();
+            let i = choose|i: int| 0 <= i < rd.len() && rd[i] == x;
+            assert(pp[pp1.len() + i] == x);
+        } else {
+            assert(pp0.contains(x));
+        }
+    }
+}
+pub proof fn lemma_window_start_below(f: Slot, first: Slot, m: Slot)
+    requires win_start(f), win_start(first), f.0 <= m.0, first.0 <= m.0 < first.0 + SLOTS_PER_WINDOW,
+    ensures f.0 <= first.0,
+{
+    let w = SLOTS_PER_WINDOW as int;
+    let a = f.0 as int / w; let b = first.0 as int / w;
+    assert(f.0 == w * a && first.0 == w * b) by {
+        vstd::arithmetic::div_mod::lemma_fundamental_div_mod(f.0 as int, w);
+        vstd::arithmetic::div_mod::lemma_fundamental_div_mod(first.0 as int, w);
+    }
+    assert(a <= b) by (nonlinear_arith) requires w * a < w * b + w, w > 0 {}
+    assert(w * a <= w * b) by (nonlinear_arith) requires a <= b, w > 0 {}
+}
+// completeness after `mark_skipped`
+pub proof fn lemma_cpl_extend2(pre: ParentReadyTracker, mid: ParentReadyTracker, b: ParentReadyTracker, marked: Slot,
+                               pp: Seq<BlockId>, last: Slot, first: Slot, kx: Slot)
+    requires
+        ParentReadyTracker::skip_step(pre, mid, marked), pre.cpl(), b.root == mid.root,
+        forall|t: Slot| (#[trigger] b.st(t)).skip == mid.st(t).skip,
+        forall|t: Slot| (#[trigger] b.st(t)).nf() == mid.st(t).nf(),
+        forall|t: Slot| marked.0 < t.0 < last.0 ==> (#[trigger] mid.st(t)).skip,
+        forall|t: Slot| (#[trigger] b.st(t)).ready() ==
+            (if marked.0 < t.0 <= last.0 && win_start(t) { mid.st(t).ready() + pp } else { mid.st(t).ready() }),
+        last.0 > marked.0 && !mid.st(last).skip,
+        win_start(first) && first.0 <= marked.0 < first.0 + SLOTS_PER_WINDOW && first.0 <= kx.0,
+        mid.scan_c1(marked, kx.0 as int, pp), mid.scan_c2(marked, kx.0 as int, pp),
+        kx == first || (!mid.st(kx).skip && mid.root.0 <= kx.0 <= marked.0),
+    ensures
+        b.cpl(),
+{
+    let m = marked;
+    assert forall|t: Slot, x: BlockId| mid.st(t).ready().contains(x) implies #[trigger] b.st(t).ready().contains(x) by {
+        let q = mid.st(t).ready();
+        let i = choose|i: int| 0 <= i < q.len() && q[i] == x;
+        assert((q + pp)[i] == x);
+    }
+    // (A) a window start after `marked` reached through skipped slots only lies at or before `last`: it received all of pp
+    assert forall|s: Slot, x: BlockId| win_start(s) && s.0 > m.0 && b.all_skip(m.0 + 1, s.0 as int) && pp.contains(x)
+            implies #[trigger] b.st(s).ready().contains(x) by {
+        if s.0 > last.0 { assert(b.st(last).skip); }
+        let q = mid.st(s).ready();
+        let i = choose|i: int| 0 <= i < pp.len() && pp[i] == x;
+        assert((q + pp)[q.len() + i] == x);
+    }
+    // (B) if everything in [first, marked] is skipped, the scan reached `first`
+    assert(mid.all_skip(first.0 as int, m.0 + 1) ==> kx == first) by {
+        if mid.all_skip(first.0 as int, m.0 + 1) && kx != first { assert(mid.st(kx).skip); }
+    }
+    assert forall|b0: BlockId, s: Slot| #[trigger] b.j4_pre(b0, s) implies b.st(s).ready().contains(b0) by {
+        assert(b.st(b0.0).nf() == pre.st(b0.0).nf()) by { assert(mid.st(b0.0).nf() == pre.st(b0.0).nf()); }
+        if b0.0.0 < m.0 < s.0 {
+            assert(b.all_skip(m.0 + 1, s.0 as int)) by {
+                assert forall|t: Slot| m.0 + 1 <= t.0 < s.0 implies (#[trigger] b.st(t)).skip by {}
+            }
+            assert(mid.all_skip(b0.0.0 + 1, m.0 + 1)) by {
+                assert forall|t: Slot| b0.0.0 + 1 <= t.0 < m.0 + 1 implies (#[trigger] mid.st(t)).skip by { assert(b.st(t).skip); }
+            }
+            if b0.0.0 >= first.0 {
+                if b0.0.0 < kx.0 { assert(mid.st(kx).skip); }
+                assert(mid.st(b0.0).nf().contains(b0.1));
+                assert(pp.contains((b0.0, b0.1)));
+                assert((b0.0, b0.1) == b0);
+            } else {
+                assert(pre.all_skip(b0.0.0 + 1, first.0 as int)) by {
+                    assert forall|t: Slot| b0.0.0 + 1 <= t.0 < first.0 implies (#[trigger] pre.st(t)).skip by { assert(mid.st(t).skip); }
+                }
+                assert(pre.j4_pre(b0, first));
+                assert(mid.st(first).ready() == pre.st(first).ready());
+                assert(mid.all_skip(first.0 as int, m.0 + 1)) by {
+                    assert forall|t: Slot| first.0 <= t.0 < m.0 + 1 implies (#[trigger] mid.st(t)).skip by {}
+                }
+                assert(mid.st(first).ready().contains(b0));
+                assert(pp.contains(b0));
+            }
+        } else {
+            assert(pre.all_skip(b0.0.0 + 1, s.0 as int)) by {
+                assert forall|t: Slot| b0.0.0 + 1 <= t.0 < s.0 implies (#[trigger] pre.st(t)).skip by { assert(b.st(t).skip); assert(mid.st(t).skip); }
+            }
+            assert(pre.j4_pre(b0, s));
+            assert(mid.st(s).ready() == pre.st(s).ready());
+        }
+    }
+    assert forall|f: Slot, s: Slot, x: BlockId| #![trigger b.j5_pre(f, s), b.st(f).ready().contains(x)]
+            b.j5_pre(f, s) && b.st(f).ready().contains(x) implies b.st(s).ready().contains(x) by {
+        assert(mid.st(f).ready() == pre.st(f).ready());
+        assert(mid.st(s).ready() == pre.st(s).ready());
+        if mid.st(f).ready().contains(x) {
+            if f.0 <= m.0 < s.0 {
+                assert(b.all_skip(m.0 + 1, s.0 as int)) by {
+                    assert forall|t: Slot| m.0 + 1 <= t.0 < s.0 implies (#[trigger] b.st(t)).skip by {}
+                }
+                lemma_window_start_below(f, first, m);
+                assert(mid.all_skip(first.0 as int, m.0 + 1)) by {
+                    assert forall|t: Slot| first.0 <= t.0 < m.0 + 1 implies (#[trigger] mid.st(t)).skip by { assert(b.st(t).skip); }
+                }
+                if f.0 < first.0 {
+                    assert(pre.all_skip(f.0 as int, first.0 as int)) by {
+                        assert forall|t: Slot| f.0 <= t.0 < first.0 implies (#[trigger] pre.st(t)).skip by { assert(b.st(t).skip); assert(mid.st(t).skip); }
+                    }
+                    assert(pre.j5_pre(f, first));
+                    assert(pre.st(first).ready().contains(x));
+                    assert(mid.st(first).ready() == pre.st(first).ready());
+                } else {
+                    assert(f == first);
+                }
+                assert(mid.st(first).ready().contains(x));
+                assert(pp.contains(x));
+            } else {
+                assert(pre.all_skip(f.0 as int, s.0 as int)) by {
+                    assert forall|t: Slot| f.0 <= t.0 < s.0 implies (#[trigger] pre.st(t)).skip by { assert(b.st(t).skip); assert(mid.st(t).skip); }
+                }
+                assert(pre.j5_pre(f, s));
+            }
+        } else {
+            // x was appended at f by this call
+            let q = mid.st(f).ready();
+            let i = choose|i: int| 0 <= i < b.st(f).ready().len() && b.st(f).ready()[i] == x;
+            assert(m.0 < f.0 <= last.0 && win_start(f));
+            if i < q.len() { assert((q + pp)[i] == q[i]); assert(q.contains(q[i])); }
+            assert((q + pp)[i] == pp[i - q.len()]);
+            assert(pp.contains(x));
+            assert(b.all_skip(m.0 + 1, s.0 as int)) by {
+                assert forall|t: Slot| m.0 + 1 <= t.0 < s.0 implies (#[trigger] b.st(t)).skip by {
+                    if t.0 < f.0 { assert(mid.st(t).skip); }
+                }
+            }
+        }
+    }
 }
 
 pub mod code {
@@ -806,6 +1134,8 @@ ensures
         id.0.0 >= old(self).root.0 ==> final(self).nf_has(*id),
         Self::ext(*old(self), *final(self)),
         forall|i: int| 0 <= i < r.view().len() ==> Self::ann(*old(self), *final(self), #[trigger] r.view()[i]),
+        // [C07.every_connected_pair_is_recorded] completeness is preserved
+        old(self).cpl() ==> final(self).cpl(),
 before `let (slot, hash) = verif_clone_block_id(id);`
         let ghost pre = *old(self);
         let ghost hz = choose|h: int| pre.skip_horizon(h);
@@ -813,7 +1143,7 @@ before `if !state.mark_notar_fallback(hash) {`
         let ghost st0 = *state;
 before `return SmallVec::new();#1`
         let ghost st1 = *state;
-        proof { lemma_frame(pre, *self, slot, st1); lemma_wf_step(pre, *self); }
+        proof { lemma_frame(pre, *self, slot, st1); lemma_wf_step(pre, *self); if pre.cpl() { lemma_cpl_step(pre, *self); } }
 before `let mut newly_certified = SmallVec::<[(Slot, BlockId); 1]>::new();`
         let ghost mid = *self;
         proof {
@@ -832,7 +1162,7 @@ before `break;`
 blockend `if !state.is_skip_certified() {`
         proof { lemma_frame(bef, *self, slot, fin); }
 before `newly_certified }`
-        proof { lemma_wf_extend(pre, *self, *id, verif_it); }
+        proof { lemma_wf_extend(pre, *self, *id, verif_it); if pre.cpl() { lemma_cpl_extend(pre, *self, *id, verif_it); } }
 loop 0
         invariant_except_break
             verif_it.0 > id.0.0 ==> pre.st(verif_it).skip,
@@ -849,6 +1179,8 @@ loop 0
                 (if id.0.0 < t.0 <= verif_it.0 && win_start(t) { pre.st(t).ready().push(*id) } else { pre.st(t).ready() }),
             forall|i: int| 0 <= i < newly_certified.view().len() ==> (#[trigger] newly_certified.view()[i]).1 == *id
                 && id.0.0 < newly_certified.view()[i].0.0 <= verif_it.0 && win_start(newly_certified.view()[i].0),
+        ensures
+            verif_it.0 > id.0.0 && !pre.st(verif_it).skip,
         decreases hz - verif_it.0,
 @*/
 
@@ -880,6 +1212,8 @@ ensures
         forall|t: Slot| (#[trigger] final(self).st(t)).skip == (old(self).st(t).skip || (t == marked_slot && marked_slot.0 >= old(self).root.0)),
         Self::ext(*old(self), *final(self)),
         forall|i: int| 0 <= i < r.view().len() ==> Self::ann(*old(self), *final(self), #[trigger] r.view()[i]),
+        // [C07.every_connected_pair_is_recorded] completeness is preserved
+        old(self).cpl() ==> final(self).cpl(),
 before `if marked_slot < self.root {`
         let ghost pre = *old(self);
         let ghost hz = choose|h: int| pre.skip_horizon(h);
@@ -887,7 +1221,7 @@ before `if !state.mark_skip() {`
         let ghost st0 = *state;
 before `return SmallVec::new();#1`
         let ghost st1 = *state;
-        proof { lemma_frame(pre, *self, marked_slot, st1); lemma_wf_step(pre, *self); }
+        proof { lemma_frame(pre, *self, marked_slot, st1); lemma_wf_step(pre, *self); if pre.cpl() { lemma_cpl_step(pre, *self); } }
 before `let mut potential_parents = SmallVec::<[BlockId; 1]>::new();`
         let ghost mid = *self;
         proof {
@@ -907,6 +1241,9 @@ loop 0
             forall|t: Slot| #[trigger] self.st(t) == mid.st(t),
             mid.scan_ok(marked_slot, potential_parents.view()),
             verif_k > verif_first ==> forall|i: int| 0 <= i < potential_parents.view().len() ==> (#[trigger] potential_parents.view()[i]).0.0 >= verif_k,
+            mid.scan_c1(marked_slot, verif_k as int, potential_parents.view()) && mid.scan_c2(marked_slot, verif_k as int, potential_parents.view()),
+        ensures
+            verif_k == verif_first || (!mid.st(Slot(verif_k)).skip && mid.root.0 <= verif_k <= marked_slot.0),
         decreases verif_k,
 after `let state = self.slot_state(slot);#0`
         let ghost fin = *state;
@@ -926,11 +1263,12 @@ before `if !state.is_skip_certified() {#0`
             }
         }
 before `break;#0`
-        proof { lemma_frame(bef, *self, slot, fin); }
+        proof { lemma_frame(bef, *self, slot, fin); lemma_scan_cpl(mid, marked_slot, slot, pp0, pp1, pp1, false); }
 blockend `if !state.is_skip_certified() {#0`
         proof {
             lemma_frame(bef, *self, slot, fin);
             lemma_scan_ready(mid, marked_slot, slot, pp1, fin.ready(), potential_parents.view());
+            lemma_scan_cpl(mid, marked_slot, slot, pp0, pp1, potential_parents.view(), true);
             if verif_k > verif_first {
                 assert(!win_start(slot)) by (nonlinear_arith)
                     requires verif_first % SLOTS_PER_WINDOW == 0, verif_first < slot.0 < verif_first + SLOTS_PER_WINDOW, SLOTS_PER_WINDOW > 0 {}
@@ -938,6 +1276,8 @@ blockend `if !state.is_skip_certified() {#0`
             }
         }
 before `let mut newly_certified = SmallVec::<[(Slot, BlockId); 1]>::new();`
+        let ghost kx = Slot(verif_k);
+        let ghost fs = Slot(verif_first);
         let ghost pp = potential_parents.view();
         let ghost scan = *self;
         let ghost hz2 = choose|h: int| mid.skip_horizon(h);
@@ -956,6 +1296,8 @@ loop 2
                 (if marked_slot.0 < t.0 <= verif_it.0 && win_start(t) { mid.st(t).ready() + pp } else { mid.st(t).ready() }),
             forall|i: int| 0 <= i < newly_certified.view().len() ==> pp.contains((#[trigger] newly_certified.view()[i]).1)
                 && marked_slot.0 < newly_certified.view()[i].0.0 <= verif_it.0 && win_start(newly_certified.view()[i].0),
+        ensures
+            verif_it.0 > marked_slot.0 && !mid.st(verif_it).skip,
         decreases hz2 - verif_it.0,
 before `let state = self.slot_state(slot);#1`
         let ghost bef2 = *self;
@@ -994,6 +1336,7 @@ blockend `if !state.is_skip_certified() {#1`
 before `newly_certified }`
         proof {
             lemma_wf_extend2(mid, *self, marked_slot, pp, verif_it);
+            if pre.cpl() { lemma_cpl_extend2(pre, mid, *self, marked_slot, pp, verif_it, fs, kx); }
         }
 @*/
 
@@ -1004,7 +1347,7 @@ rewrite[R8] `HashMap::new()` => `verif_states_new()`
 rewrite[R8] `states.insert(Slot::genesis(), genesis_parent_state);` => `verif_states_insert(&mut states, Slot::genesis(), genesis_parent_state);`
 ensures
         // [C07.initially_only_genesis_is_certified]
-        r.wf() && r.root.0 == 0,
+        r.wf() && r.root.0 == 0 && r.cpl(),
         forall|b: BlockId| #[trigger] r.nf_has(b) <==> b == (Slot(0), spec_genesis_hash()),
         forall|t: Slot| !(#[trigger] r.st(t)).skip && r.st(t).ready().len() == 0,
 rewrite[R10] `Self { states, root: Slot::genesis(), }` => `let verif_r = Self { states, root: Slot::genesis(), }; proof { lemma_default_wf(verif_r, g); } verif_r`
@@ -1026,13 +1369,14 @@ props C07
 ret r
 sig `oneshot::Receiver<BlockId>` => `OneshotReceiver`
 rewrite[R5] `self.states.entry(slot).or_default()` => `self.slot_state(slot)`
-rewrite[R10] `state.wait_for_parent_ready()` => `let verif_r = state.wait_for_parent_ready(); let ghost fin = *state; proof { lemma_frame(pre, *self, slot, fin); lemma_wf_perm(pre, *self, slot); } verif_r`
+rewrite[R10] `state.wait_for_parent_ready()` => `let verif_r = state.wait_for_parent_ready(); let ghost fin = *state; proof { lemma_frame(pre, *self, slot, fin); lemma_wf_perm(pre, *self, slot); if pre.cpl() { lemma_cpl_step(pre, *self); } } verif_r`
 requires
         old(self).wf(),
         // [C07.single_waiter_per_slot] (caller obligation)
         !(old(self).st(slot).is_ready matches IsReady::NotReady(Some(_))),
 ensures
         final(self).wf() && final(self).root == old(self).root,
+        old(self).cpl() ==> final(self).cpl(),
         // [C07.waiter_gets_ready_parent_or_is_registered]
         match r {
             Either::Left(b) => old(self).st(slot).ready().contains(b)
@@ -1056,6 +1400,7 @@ requires
         new_root.0 >= old(self).root.0,
 ensures
         final(self).wf() && final(self).root == new_root,
+        old(self).cpl() ==> final(self).cpl(),
         // [C07.pruning_loses_no_pair_and_adds_none]
         forall|t: Slot| t.0 >= new_root.0 ==> #[trigger] final(self).st(t) == old(self).st(t),
         forall|t: Slot| t.0 < new_root.0 ==> #[trigger] final(self).st(t) == spec_default_state(),
@@ -1076,6 +1421,7 @@ blockend `self.root = new_root;`
                 else { assert(!spec_map(self.states).contains_key(t)); }
             }
             lemma_wf_prune(pre, *self);
+            if pre.cpl() { lemma_cpl_prune(pre, *self); }
         }
 @*/
 
@@ -1096,6 +1442,7 @@ requires
 ensures
         final(self).wf(),
         Self::ext(*old(self), *final(self)),
+        old(self).cpl() ==> final(self).cpl(),
         // [C07.finalization_marks_blocks_and_skips]
         event.finalized is Some && (event.finalized->0).0.0 >= old(self).root.0 ==> final(self).nf_has(event.finalized->0),
         forall|i: int| 0 <= i < event.implicitly_finalized@.len() && (#[trigger] event.implicitly_finalized@[i]).0.0 >= old(self).root.0
@@ -1116,7 +1463,7 @@ after `parents_ready.verif_extend(self.mark_notar_fallback(finalized));`
                 assert(parents_ready.view() =~= acc + parents_ready.view().subrange(acc.len() as int, parents_ready.view().len() as int)); }
 loop 0
         invariant
-            pre == *old(self) && pre.wf() && self.wf() && Self::ext(pre, *self),
+            pre == *old(self) && pre.wf() && self.wf() && Self::ext(pre, *self) && (pre.cpl() ==> self.cpl()),
             verif_a <= verif_if@.len() && verif_if@ == event.implicitly_finalized@,
             forall|i: int| 0 <= i < event.implicitly_finalized@.len() ==> (#[trigger] event.implicitly_finalized@[i]).0.0 < u64::MAX,
             forall|i: int| 0 <= i < event.implicitly_skipped@.len() ==> (#[trigger] event.implicitly_skipped@[i]).0 < u64::MAX - SLOTS_PER_WINDOW,
@@ -1132,7 +1479,7 @@ after `parents_ready.verif_extend(self.mark_notar_fallback(block_id));`
                 assert(parents_ready.view() =~= acc + parents_ready.view().subrange(acc.len() as int, parents_ready.view().len() as int)); }
 loop 1
         invariant
-            pre == *old(self) && pre.wf() && self.wf() && Self::ext(pre, *self),
+            pre == *old(self) && pre.wf() && self.wf() && Self::ext(pre, *self) && (pre.cpl() ==> self.cpl()),
             verif_b <= verif_is@.len() && verif_is@ == event.implicitly_skipped@,
             forall|i: int| 0 <= i < event.implicitly_skipped@.len() ==> (#[trigger] event.implicitly_skipped@[i]).0 < u64::MAX - SLOTS_PER_WINDOW,
             forall|i: int| 0 <= i < parents_ready.view().len() ==> Self::ann(pre, *self, #[trigger] parents_ready.view()[i]),
